@@ -25,9 +25,15 @@ pub enum Entry {
     BuilderAuto,
     BuilderMicrolp,
     BuilderClarabel,
+    /// The pipe runner as front door: the same back-ends reached through
+    /// `PipeRunner::run` on a `PipeableData::LinearModel`.
+    PipeAuto,
+    PipeMilp,
+    PipeClarabel,
+    PipeSimplex,
 }
 
-pub const ALL_ENTRIES: [Entry; 9] = [
+pub const ALL_ENTRIES: [Entry; 13] = [
     Entry::Auto,
     Entry::Milp,
     Entry::MilpWith,
@@ -37,6 +43,10 @@ pub const ALL_ENTRIES: [Entry; 9] = [
     Entry::BuilderAuto,
     Entry::BuilderMicrolp,
     Entry::BuilderClarabel,
+    Entry::PipeAuto,
+    Entry::PipeMilp,
+    Entry::PipeClarabel,
+    Entry::PipeSimplex,
 ];
 
 impl Entry {
@@ -51,18 +61,32 @@ impl Entry {
             Entry::BuilderAuto => "ModelBuilder::solve_with(Auto)",
             Entry::BuilderMicrolp => "ModelBuilder::solve_with(Microlp)",
             Entry::BuilderClarabel => "ModelBuilder::solve_with(Clarabel)",
+            Entry::PipeAuto => "PipeRunner[AutoSolverPipe]/auto_solver",
+            Entry::PipeMilp => "PipeRunner[MILPSolverPipe]/solve_milp_lp_problem",
+            Entry::PipeClarabel => "PipeRunner[RealSolver]/solve_real_lp_problem_clarabel",
+            Entry::PipeSimplex => {
+                "PipeRunner[StandardLinearModelPipe,TableauPipe,StepByStepSimplexPipe]"
+            }
         }
     }
     /// Entry points that accept only continuous models.
     pub fn continuous_only(&self) -> bool {
         matches!(
             self,
-            Entry::RealMicrolp | Entry::Clarabel | Entry::SlowSimplex | Entry::BuilderClarabel
+            Entry::RealMicrolp
+                | Entry::Clarabel
+                | Entry::SlowSimplex
+                | Entry::BuilderClarabel
+                | Entry::PipeClarabel
+                | Entry::PipeSimplex
         )
     }
     /// Entry points that cannot express `Satisfy`.
     pub fn needs_objective(&self) -> bool {
-        matches!(self, Entry::RealMicrolp | Entry::SlowSimplex)
+        matches!(
+            self,
+            Entry::RealMicrolp | Entry::SlowSimplex | Entry::PipeSimplex
+        )
     }
     pub fn accepts(&self, m: &GenModel) -> bool {
         (!self.continuous_only()
@@ -83,6 +107,8 @@ impl Entry {
                 | Entry::RealMicrolp
                 | Entry::BuilderAuto
                 | Entry::BuilderMicrolp
+                | Entry::PipeAuto
+                | Entry::PipeMilp
         )
     }
     /// Takes the time limit / gap options.
@@ -91,7 +117,10 @@ impl Entry {
     }
     /// Simplex-based (must always reach one of the three verdicts on small models).
     pub fn simplex_based(&self) -> bool {
-        !matches!(self, Entry::Clarabel | Entry::BuilderClarabel)
+        !matches!(
+            self,
+            Entry::Clarabel | Entry::BuilderClarabel | Entry::PipeClarabel
+        )
     }
     pub fn is_builder(&self) -> bool {
         matches!(
@@ -611,6 +640,73 @@ fn call(m: &GenModel, cfg: &RunCfg) -> Outcome {
             via_builder(m, s)
         }
         Entry::BuilderClarabel => via_builder(m, rooc::Clarabel),
+        Entry::PipeAuto => via_pipes(m, vec![Box::new(rooc::pipe::AutoSolverPipe::new())]),
+        Entry::PipeMilp => via_pipes(m, vec![Box::new(rooc::pipe::MILPSolverPipe::new())]),
+        Entry::PipeClarabel => via_pipes(m, vec![Box::new(rooc::pipe::RealSolver::new())]),
+        Entry::PipeSimplex => via_pipes(
+            m,
+            vec![
+                Box::new(rooc::pipe::StandardLinearModelPipe::new()),
+                Box::new(rooc::pipe::TableauPipe::new()),
+                Box::new(rooc::pipe::StepByStepSimplexPipe::new()),
+            ],
+        ),
+    }
+}
+
+/// The pipe runner as front door: the linear model is the first datum, the listed pipes run
+/// in order, the last datum is the answer. The runner must hand back one datum per stage
+/// (the input included); errors keep their dedicated kinds.
+fn via_pipes(m: &GenModel, pipes: Vec<Box<dyn rooc::pipe::Pipeable>>) -> Outcome {
+    use rooc::pipe::{PipeContext, PipeError, PipeRunner, PipeableData};
+    use rooc::{CanonicalTransformError, SimplexError};
+    let fns: IndexMap<String, Box<dyn rooc::RoocFunction>> = IndexMap::new();
+    let ctx = PipeContext::new(vec![], &fns);
+    let stages = pipes.len();
+    let runner = PipeRunner::new(pipes);
+    let other = |msg: String| Outcome::Err {
+        kind: ErrKind::Other,
+        msg,
+    };
+    match runner.run(PipeableData::LinearModel(to_linear_model(m)), &ctx) {
+        Ok(mut results) => {
+            if results.len() != stages + 1 {
+                return other(format!(
+                    "pipe runner returned {} data for {} stages",
+                    results.len(),
+                    stages
+                ));
+            }
+            match results.pop() {
+                Some(PipeableData::MILPSolution(s)) => Outcome::Sol(sol_from(&s)),
+                Some(PipeableData::RealSolution(s)) => Outcome::Sol(sol_from(&s)),
+                Some(PipeableData::OptimalTableauWithSteps(o)) => {
+                    Outcome::Sol(sol_from(&o.result().as_lp_solution()))
+                }
+                Some(d) => other(format!("pipe runner ended with {}", d.get_type())),
+                None => other("pipe runner returned nothing".to_string()),
+            }
+        }
+        Err((e, _)) => match e {
+            PipeError::SolverError(e) | PipeError::StandardizationError(e) => err_outcome(&e),
+            PipeError::CanonicalizationError(CanonicalTransformError::Infesible(msg)) => {
+                Outcome::Err {
+                    kind: ErrKind::Infeasible,
+                    msg,
+                }
+            }
+            PipeError::StepByStepSimplexError(SimplexError::Unbounded, _) => Outcome::Err {
+                kind: ErrKind::Unbounded,
+                msg: "StepByStepSimplexError(Unbounded)".to_string(),
+            },
+            PipeError::StepByStepSimplexError(SimplexError::IterationLimitReached, _) => {
+                Outcome::Err {
+                    kind: ErrKind::LimitReached,
+                    msg: "StepByStepSimplexError(IterationLimitReached)".to_string(),
+                }
+            }
+            e => other(e.to_string()),
+        },
     }
 }
 
